@@ -1,4 +1,4 @@
-import ScVerif.C02.Facts
+import ScVerif.C02.Stamp
 /-!
 # C02 — property theorems
 
@@ -10,10 +10,12 @@ with an expected value or check succeeds only if the stored value satisfied it a
 write, read-modify-write interceptors never lose an increment, two concurrent Adds of one id never
 both succeed, and a Delete never removes a version its precondition did not see."
 
-All theorems are about `run true (initCfg s₀ progs) sched`: the model of the code as it is now
+All theorems are about `run true env (initCfg s₀ progs) sched`: the model of the code as it is now
 (with fix 41c35d0), for ARBITRARY initial contents `s₀`, thread programs `progs` (any number of
 threads, any operations, arbitrary check / interceptor functions, any message type with decidable
-equality) and ARBITRARY schedules `sched`.  Only property theorems and non-vacuity examples live here.
+equality, any `WithWriteTime`, calls with generated ids), ARBITRARY environments `env` (the clock —
+frozen, coarse, running backwards — and the id generator — even one that repeats itself) and ARBITRARY
+schedules `sched`.  Only property theorems and non-vacuity examples live here.
 
 Ghost logical time is the length of the commit log: `inv ≤ lin ≤ resp` says the linearization point of
 a call lies between its invocation and its response; if call A responds before call B is invoked
@@ -31,52 +33,58 @@ thread `t`) is explained at its linearization index `r.lin`, which lies within t
 * refused (NotFound / AlreadyExists / FailedPrecondition / a check's own error / allow-missing no-op):
   the specification refuses it too, with the same result and no effect, on the contents at `r.lin`
   (the instant of the value it read);
-* lost a race: the result is Aborted or Unavailable (and it owns no log entry: `C02_losers_have_no_effect`). -/
-theorem C02_commit_order_linearizes (s₀ : SStore M) (progs : Nat → List (Op M)) (sched : List Nat) :
-    let c : Config M := run true (initCfg s₀ progs) sched
+* lost a race: the result is Aborted or Unavailable (and it owns no log entry: `C02_losers_have_no_effect`),
+  and the race was real: another call committed inside this call's interval (five of them for Unavailable);
+  the only other Aborted is an id generator that ran out of attempts. -/
+theorem C02_commit_order_linearizes (env : Env) (s₀ : SStore M) (progs : Nat → List (Op M)) (sched : List Nat) :
+    let c : Config M := run true env (initCfg s₀ progs) sched
     absS c.store = replay s₀ c.log ∧
     ∀ (t n : Nat) (r : Rec M), (c.threads t).done[n]? = some r →
       r.inv ≤ r.lin ∧ r.lin ≤ r.resp ∧ r.resp ≤ c.log.length ∧
       match r.kind with
       | .committed =>
-          c.log[r.lin]? = some ⟨t, n, r.op⟩ ∧ r.lin < r.resp ∧
+          (∃ tm, c.log[r.lin]? = some ⟨t, n, r.op, tm⟩) ∧ r.lin < r.resp ∧
           (specStep r.op (replay s₀ (c.log.take r.lin))).1 = r.res ∧ ∃ v, r.res = .ok (some v)
       | .refused =>
           specStep r.op (replay s₀ (c.log.take r.lin)) = (r.res, replay s₀ (c.log.take r.lin)) ∧
           (r.res = .ok none ∨ ∃ e, r.res = .error e)
-      | .raced => r.res = .error .aborted ∨ r.res = .error .unavailable := by
+      | .raced =>
+          (r.res = .error .aborted ∧ (opGen r.op = true ∨ r.inv < r.resp)) ∨
+          (r.res = .error .unavailable ∧ r.inv + 5 ≤ r.resp) := by
   intro c
-  have h := (Inv.init s₀ progs).run sched
+  have h := (Inv.init s₀ progs).run env sched
   exact ⟨h.store, fun t n r hr => (h.thr t).recs n r hr⟩
 
 /-- **Program order / nothing invented.**  The finished calls of a thread, then the call in flight, then
-the calls still to come are exactly the thread's program: records are never made up, dropped or reordered. -/
-theorem C02_program_order (s₀ : SStore M) (progs : Nat → List (Op M)) (sched : List Nat) (t : Nat) :
-    let th : Thread M := (run true (initCfg s₀ progs) sched).threads t
-    th.done.map (·.op) ++ pcOps th.pc ++ th.prog = progs t :=
-  acc_run s₀ progs sched t
+the calls still to come are exactly the thread's program: records are never made up, dropped or reordered
+(`forget` blanks the id of a generate-id call, which the program text does not have; it is the identity on
+every other call). -/
+theorem C02_program_order (env : Env) (s₀ : SStore M) (progs : Nat → List (Op M)) (sched : List Nat) (t : Nat) :
+    let th : Thread M := (run true env (initCfg s₀ progs) sched).threads t
+    (th.done.map (·.op) ++ pcOps th.pc ++ th.prog).map forget = (progs t).map forget :=
+  acc_run env s₀ progs sched t
 
 /-- **Exactly once.**  A call that reported success with a value owns exactly one entry of the commit log,
 and every entry of the commit log is owned by exactly one such call. -/
-theorem C02_exactly_once (s₀ : SStore M) (progs : Nat → List (Op M)) (sched : List Nat) :
-    let c : Config M := run true (initCfg s₀ progs) sched
+theorem C02_exactly_once (env : Env) (s₀ : SStore M) (progs : Nat → List (Op M)) (sched : List Nat) :
+    let c : Config M := run true env (initCfg s₀ progs) sched
     (∀ (t n : Nat) (r : Rec M) (v : M), (c.threads t).done[n]? = some r → r.res = .ok (some v) →
-        c.log[r.lin]? = some ⟨t, n, r.op⟩ ∧ ∀ (k : Nat) (e : Entry M), c.log[k]? = some e → e.tid = t → e.idx = n → k = r.lin) ∧
+        (∃ tm, c.log[r.lin]? = some ⟨t, n, r.op, tm⟩) ∧ ∀ (k : Nat) (e : Entry M), c.log[k]? = some e → e.tid = t → e.idx = n → k = r.lin) ∧
     (∀ (k : Nat) (e : Entry M), c.log[k]? = some e →
         ∃ (r : Rec M) (v : M), (c.threads e.tid).done[e.idx]? = some r ∧ r.lin = k ∧ r.op = e.op ∧ r.res = .ok (some v)) := by
   intro c
-  have h := (Inv.init s₀ progs).run sched
+  have h := (Inv.init s₀ progs).run env sched
   exact ⟨fun t n r v hr hres => once_of_ok h hr hres, fun k e he => owner_of_entry h he⟩
 
 /-- **Losers have no effect.**  A call that returned an error (Aborted, AlreadyExists, FailedPrecondition,
 NotFound, Unavailable, or a check's own error) owns no entry of the commit log — and the contents are
 exactly the replay of that log (`C02_commit_order_linearizes`). -/
-theorem C02_losers_have_no_effect (s₀ : SStore M) (progs : Nat → List (Op M)) (sched : List Nat) :
-    let c : Config M := run true (initCfg s₀ progs) sched
+theorem C02_losers_have_no_effect (env : Env) (s₀ : SStore M) (progs : Nat → List (Op M)) (sched : List Nat) :
+    let c : Config M := run true env (initCfg s₀ progs) sched
     ∀ (t n : Nat) (r : Rec M) (err : Err), (c.threads t).done[n]? = some r → r.res = .error err →
       ∀ (k : Nat) (e : Entry M), c.log[k]? = some e → ¬ (e.tid = t ∧ e.idx = n) := by
   intro c t n r err hr hres k e he htag
-  have h := (Inv.init s₀ progs).run sched
+  have h := (Inv.init s₀ progs).run env sched
   obtain ⟨r', v, hr', _, _, hv⟩ := owner_of_entry h he
   rw [htag.1, htag.2, hr] at hr'
   cases hr'
@@ -86,33 +94,33 @@ theorem C02_losers_have_no_effect (s₀ : SStore M) (progs : Nat → List (Op M)
 /-- **CAS soundness.**  A write that reported success saw its precondition hold on the contents at the
 instant of its commit: the old value the specification reads there equals the expected value (if one was
 given), passes the expected check, and the result is the change applied to exactly that old value. -/
-theorem C02_cas_sound (s₀ : SStore M) (progs : Nat → List (Op M)) (sched : List Nat) :
-    let c : Config M := run true (initCfg s₀ progs) sched
+theorem C02_cas_sound (env : Env) (s₀ : SStore M) (progs : Nat → List (Op M)) (sched : List Nat) :
+    let c : Config M := run true env (initCfg s₀ progs) sched
     ∀ (t n : Nat) (r : Rec M) (u : UpdOp M) (v : M), (c.threads t).done[n]? = some r → r.op = .upd u → r.res = .ok (some v) →
       ∃ old, specRead u ((replay s₀ (c.log.take r.lin)) u.id) = .ok old ∧
         (u.expect.isSome → old = u.expect) ∧ u.check old = none ∧ v = u.f old ∧
         (replay s₀ (c.log.take (r.lin + 1))) u.id = some v := by
   intro c t n r u v hr hop hres
-  have h := (Inv.init s₀ progs).run sched
+  have h := (Inv.init s₀ progs).run env sched
   exact cas_of_ok h hr hop hres
 
 /-- **Delete sees its version.**  A Delete that reported success removed exactly the stored value its
 preconditions inspected: that value is the contents at the instant of its commit, it passes the check and
 the expected-value comparison, it is the value returned, and the id is absent right after. -/
-theorem C02_delete_sees_its_version (s₀ : SStore M) (progs : Nat → List (Op M)) (sched : List Nat) :
-    let c : Config M := run true (initCfg s₀ progs) sched
+theorem C02_delete_sees_its_version (env : Env) (s₀ : SStore M) (progs : Nat → List (Op M)) (sched : List Nat) :
+    let c : Config M := run true env (initCfg s₀ progs) sched
     ∀ (t n : Nat) (r : Rec M) (d : DelOp M) (b : M), (c.threads t).done[n]? = some r → r.op = .del d → r.res = .ok (some b) →
       (replay s₀ (c.log.take r.lin)) d.id = some b ∧ d.pre b = none ∧
       (replay s₀ (c.log.take (r.lin + 1))) d.id = none := by
   intro c t n r d b hr hop hres
-  have h := (Inv.init s₀ progs).run sched
+  have h := (Inv.init s₀ progs).run env sched
   exact del_of_ok h hr hop hres
 
 /-- **Add is exclusive.**  Of two successful Adds (expect-absent writes) of one id, the later one in commit
 order is preceded, after the earlier one, by a committed Delete of that id.  (Two calls never share a
 linearization index, by `C02_exactly_once`.)  So overlapping Adds of one id never both succeed. -/
-theorem C02_add_exclusive (s₀ : SStore M) (progs : Nat → List (Op M)) (sched : List Nat) :
-    let c : Config M := run true (initCfg s₀ progs) sched
+theorem C02_add_exclusive (env : Env) (s₀ : SStore M) (progs : Nat → List (Op M)) (sched : List Nat) :
+    let c : Config M := run true env (initCfg s₀ progs) sched
     ∀ (t₁ n₁ : Nat) (r₁ : Rec M) (t₂ n₂ : Nat) (r₂ : Rec M) (u₁ u₂ : UpdOp M) (v₁ v₂ : M),
       (c.threads t₁).done[n₁]? = some r₁ → (c.threads t₂).done[n₂]? = some r₂ →
       r₁.op = .upd u₁ → r₂.op = .upd u₂ → u₁.id = u₂.id →
@@ -120,17 +128,17 @@ theorem C02_add_exclusive (s₀ : SStore M) (progs : Nat → List (Op M)) (sched
       r₁.res = .ok (some v₁) → r₂.res = .ok (some v₂) → r₁.lin < r₂.lin →
       ∃ (k : Nat) (e : Entry M) (d : DelOp M), r₁.lin < k ∧ k < r₂.lin ∧ c.log[k]? = some e ∧ e.op = .del d ∧ d.id = u₂.id := by
   intro c t₁ n₁ r₁ t₂ n₂ r₂ u₁ u₂ v₁ v₂ h1 h2 ho1 ho2 hid hea hv hr1 hr2 hlt
-  have h := (Inv.init s₀ progs).run sched
+  have h := (Inv.init s₀ progs).run env sched
   exact add_exclusive h h1 h2 ho1 ho2 hid hea hv hr1 hr2 hlt
 
 /-- **Real time.**  If call `a` responded no later than call `b` was invoked, `a` is linearized no later
 than `b`; strictly earlier (as a log position) when `a` took effect. -/
-theorem C02_real_time (s₀ : SStore M) (progs : Nat → List (Op M)) (sched : List Nat) :
-    let c : Config M := run true (initCfg s₀ progs) sched
+theorem C02_real_time (env : Env) (s₀ : SStore M) (progs : Nat → List (Op M)) (sched : List Nat) :
+    let c : Config M := run true env (initCfg s₀ progs) sched
     ∀ (t₁ n₁ : Nat) (a : Rec M) (t₂ n₂ : Nat) (b : Rec M), (c.threads t₁).done[n₁]? = some a → (c.threads t₂).done[n₂]? = some b →
       a.resp ≤ b.inv → a.lin ≤ b.lin ∧ (a.kind = .committed → a.lin < b.lin) := by
   intro c t₁ n₁ a t₂ n₂ b ha hb hab
-  have h := (Inv.init s₀ progs).run sched
+  have h := (Inv.init s₀ progs).run env sched
   obtain ⟨a1, a2, a3, a4⟩ := (h.thr t₁).recs n₁ a ha
   obtain ⟨b1, b2, b3, b4⟩ := (h.thr t₂).recs n₂ b hb
   refine ⟨by omega, ?_⟩
@@ -139,34 +147,148 @@ theorem C02_real_time (s₀ : SStore M) (progs : Nat → List (Op M)) (sched : L
   have := a4.2.1
   omega
 
+/-- **Lost races are real.**  A call reports Aborted only when another call committed inside its interval
+(or its id generator ran out of attempts), and a Delete gives up with Unavailable only after five commits
+of other calls landed inside its interval — one per invalidated attempt of the retry loop (`attempt < 5`).
+A call running alone therefore never loses a race. -/
+theorem C02_lost_races_are_real (env : Env) (s₀ : SStore M) (progs : Nat → List (Op M)) (sched : List Nat) :
+    let c : Config M := run true env (initCfg s₀ progs) sched
+    ∀ (t n : Nat) (r : Rec M), (c.threads t).done[n]? = some r → r.kind = .raced →
+      (r.res = .error .aborted ∧
+        (opGen r.op = true ∨ ∃ e, c.log[r.inv]? = some e ∧ r.inv < r.resp ∧ ¬ (e.tid = t ∧ e.idx = n))) ∨
+      (r.res = .error .unavailable ∧
+        ∀ j, j < 5 → ∃ e, c.log[r.inv + j]? = some e ∧ r.inv + j < r.resp ∧ ¬ (e.tid = t ∧ e.idx = n)) := by
+  intro c t n r hr hk
+  have h := (Inv.init s₀ progs).run env sched
+  obtain ⟨_, _, h3, h4⟩ := (h.thr t).recs n r hr
+  replace h3 : r.resp ≤ c.log.length := h3
+  rw [hk] at h4
+  simp only [] at h4
+  -- an entry inside the interval is not this call's: this call reported an error
+  have notOwn : ∀ (err : Err) (k : Nat) (e : Entry M), r.res = .error err → c.log[k]? = some e →
+      ¬ (e.tid = t ∧ e.idx = n) := by
+    intro err k e hres he htag
+    obtain ⟨r', v, hr', _, _, hv⟩ := owner_of_entry h he
+    rw [htag.1, htag.2, hr] at hr'
+    cases hr'
+    rw [hres] at hv
+    cases hv
+  rcases h4 with ⟨hres, hg | hlt⟩ | ⟨hres, h5⟩
+  · exact Or.inl ⟨hres, Or.inl hg⟩
+  · have hk' : r.inv < c.log.length := by omega
+    exact Or.inl ⟨hres, Or.inr ⟨c.log[r.inv], List.getElem?_eq_getElem hk', hlt,
+      notOwn _ _ _ hres (List.getElem?_eq_getElem hk')⟩⟩
+  · refine Or.inr ⟨hres, ?_⟩
+    intro j hj
+    have hk' : r.inv + j < c.log.length := by omega
+    exact ⟨c.log[r.inv + j], List.getElem?_eq_getElem hk', by omega,
+      notOwn _ _ _ hres (List.getElem?_eq_getElem hk')⟩
+
+/-- **An Add takes an absent id.**  A successful expect-absent write (in particular `Add("")` with
+`WithGenIDIfAbsent`, whatever id the generator proposed) found its id absent at the instant of its commit
+and holds it right after. -/
+theorem C02_add_takes_an_absent_id (env : Env) (s₀ : SStore M) (progs : Nat → List (Op M)) (sched : List Nat) :
+    let c : Config M := run true env (initCfg s₀ progs) sched
+    ∀ (t n : Nat) (r : Rec M) (u : UpdOp M) (v : M), (c.threads t).done[n]? = some r → r.op = .upd u →
+      u.expectAbsent = true → u.isValue = false → r.res = .ok (some v) →
+      (replay s₀ (c.log.take r.lin)) u.id = none ∧ (replay s₀ (c.log.take (r.lin + 1))) u.id = some v := by
+  intro c t n r u v hr hop hea hv hres
+  have h := (Inv.init s₀ progs).run env sched
+  obtain ⟨old, hread, _, _, _, hafter⟩ := cas_of_ok h hr hop hres
+  refine ⟨?_, hafter⟩
+  unfold specRead at hread
+  simp only [hv, Bool.false_eq_true, if_false] at hread
+  cases hc : (replay s₀ (c.log.take r.lin)) u.id with
+  | none => rfl
+  | some b => rw [hc] at hread; simp [hea] at hread
+
+/-- **Generated ids never collide.**  If two different calls `Add("")` with `WithGenIDIfAbsent` both report
+success and were given the same id — by ANY generator, e.g. one whose random source repeats itself, and in
+any interleaving, e.g. both drawing the id before either commits — then a committed Delete of that id lies
+between their commits: two calls never own one generated id at the same time. -/
+theorem C02_generated_ids_never_collide (env : Env) (s₀ : SStore M) (progs : Nat → List (Op M)) (sched : List Nat) :
+    let c : Config M := run true env (initCfg s₀ progs) sched
+    ∀ (t₁ n₁ : Nat) (r₁ : Rec M) (t₂ n₂ : Nat) (r₂ : Rec M) (u₁ u₂ : UpdOp M) (v₁ v₂ : M),
+      (c.threads t₁).done[n₁]? = some r₁ → (c.threads t₂).done[n₂]? = some r₂ →
+      r₁.op = .upd u₁ → r₂.op = .upd u₂ → u₁.genId = true → u₂.genId = true →
+      u₁.expectAbsent = true → u₂.expectAbsent = true → u₁.isValue = false → u₂.isValue = false →
+      u₁.id = u₂.id → r₁.res = .ok (some v₁) → r₂.res = .ok (some v₂) → ¬ (t₁ = t₂ ∧ n₁ = n₂) →
+      ∃ (k : Nat) (e : Entry M) (d : DelOp M), min r₁.lin r₂.lin < k ∧ k < max r₁.lin r₂.lin ∧
+        c.log[k]? = some e ∧ e.op = .del d ∧ d.id = u₁.id := by
+  intro c t₁ n₁ r₁ t₂ n₂ r₂ u₁ u₂ v₁ v₂ h1 h2 ho1 ho2 _ _ hea1 hea2 hv1 hv2 hid hr1 hr2 hne
+  have h := (Inv.init s₀ progs).run env sched
+  rcases Nat.lt_trichotomy r₁.lin r₂.lin with hlt | heq | hgt
+  · obtain ⟨k, e, d, a, b, c', d', e'⟩ := add_exclusive h h1 h2 ho1 ho2 hid hea2 hv2 hr1 hr2 hlt
+    exact ⟨k, e, d, by omega, by omega, c', d', by rw [hid]; exact e'⟩
+  · exfalso
+    obtain ⟨⟨tm1, hl1⟩, _⟩ := once_of_ok h h1 hr1
+    obtain ⟨⟨tm2, hl2⟩, _⟩ := once_of_ok h h2 hr2
+    rw [heq, hl2] at hl1
+    have := Option.some.inj hl1
+    injection this with ht hn _ _
+    exact hne ⟨ht.symm, hn.symm⟩
+  · obtain ⟨k, e, d, a, b, c', d', e'⟩ := add_exclusive h h2 h1 ho2 ho1 hid.symm hea1 hv1 hr2 hr1 hgt
+    exact ⟨k, e, d, by omega, by omega, c', d', e'⟩
+
+/-- **Change times are stamps, not versions.**  The change time stored with a value (`Value.changeTime`,
+`item.changeTime`, written by the `SaveFn`s under the write lock) is the update time of the last committed
+write of that id in commit order — the caller's `WithWriteTime` if given, else what the clock showed at the
+commit step — and 0 (the constructor's instant) if there is none.  Nothing makes it unique or increasing:
+the clock and the write times are arbitrary; all other theorems here hold regardless (the re-validation
+compares contents, never stamps). -/
+theorem C02_change_time_is_last_committed_write (env : Env) (s₀ : SStore M) (progs : Nat → List (Op M))
+    (sched : List Nat) :
+    let c : Config M := run true env (initCfg s₀ progs) sched
+    c.stamp = stampOf c.log ∧
+    ∀ (e : Entry M), e ∈ c.log → ∀ (u : UpdOp M), e.op = .upd u →
+      ∃ k, 1 ≤ k ∧ k < c.tick ∧ e.time = (match u.writeTime with | some w => w | none => env.clock k) := by
+  intro c
+  have h := (SInv.init env s₀ progs).run true sched
+  exact ⟨h.stamp, h.times⟩
+
 /-! ### Integer counters: no lost increment -/
 
 
 
-/-- **No lost increment.**  On an `Int` counter stored under id `i` (initially `v₀`), if every operation of
-every program that targets `i` is an unconditional read-modify-write `old ↦ old + δ`, then at every moment
-the stored value is `v₀` plus the sum of the `δ` of the commit-log entries on `i` — and by
-`C02_exactly_once` those entries are, one for one, the calls that reported success. -/
+/-- **No lost increment.**  On an `Int` counter stored under id `i`, if every operation of every program that
+targets `i` is an unconditional read-modify-write `old ↦ old + δ` (and no call generates its id), then at
+every moment the stored value is the initial one plus the sum of the `δ` of the commit-log entries on `i` —
+and by `C02_exactly_once` those entries are, one for one, the calls that reported success.  (An absent
+counter stays absent: every increment is refused with NotFound and none is counted.) -/
 theorem C02_no_lost_increment (s₀ : SStore Int) (progs : Nat → List (Op Int)) (sched : List Nat)
-    (i : Nat) (v₀ : Int) (h0 : s₀ i = some v₀)
-    (hprog : ∀ t op, op ∈ progs t → opId op = i → ∃ δ, op = incOp i δ) :
-    let c : Config Int := run true (initCfg s₀ progs) sched
-    absS c.store i = some (v₀ + ((c.log.filter (fun e => opId e.op == i)).map (fun e => incDelta e.op)).sum) := by
+    (i : Nat)
+    (hprog : ∀ t op, op ∈ progs t → (opGen op = true ∨ opId op = i) → ∃ δ, op = incOp i δ) :
+    let c : Config Int := run true env (initCfg s₀ progs) sched
+    absS c.store i
+      = (s₀ i).map (fun v₀ => v₀ + ((c.log.filter (fun e => opId e.op == i)).map (fun e => incDelta e.op)).sum) := by
   intro c
-  have h := (Inv.init s₀ progs).run sched
+  have h := (Inv.init s₀ progs).run env sched
   rw [h.store]
-  apply replay_incs s₀ c.log i v₀ h0
+  apply replay_incs s₀ c.log i
   intro e he hid
   obtain ⟨k, hk⟩ := List.getElem?_of_mem he
   obtain ⟨r, v, hr, _, hop, _⟩ := owner_of_entry h hk
-  have hmem : r.op ∈ progs e.tid := by
-    have hacc := acc_run s₀ progs sched e.tid
+  have hmem : forget r.op ∈ (progs e.tid).map forget := by
+    have hacc := acc_run env s₀ progs sched e.tid
     rw [← hacc]
-    have : r ∈ ((run true (initCfg s₀ progs) sched).threads e.tid).done := List.mem_of_getElem? hr
-    simp only [List.mem_append, List.mem_map]
-    exact Or.inl (Or.inl ⟨r, this, rfl⟩)
-  rw [hop] at hmem
-  exact hprog e.tid e.op hmem hid
+    have : r ∈ ((run true env (initCfg s₀ progs) sched).threads e.tid).done := List.mem_of_getElem? hr
+    simp only [List.map_append, List.mem_append, List.mem_map]
+    exact Or.inl (Or.inl ⟨r.op, ⟨r, this, rfl⟩, rfl⟩)
+  obtain ⟨op', hop', hfg⟩ := List.mem_map.mp hmem
+  -- the program has no generate-id call, so `forget` changed nothing
+  have hng' : opGen op' = false := by
+    cases hg : opGen op' with
+    | false => rfl
+    | true =>
+      obtain ⟨δ, hδ⟩ := hprog e.tid op' hop' (Or.inl hg)
+      rw [hδ] at hg
+      simp [opGen, incOp] at hg
+  have hng : opGen r.op = false := by
+    rw [← opGen_forget, ← hfg, opGen_forget]; exact hng'
+  rw [forget_of_not_gen hng', forget_of_not_gen hng] at hfg
+  rw [← hop, ← hfg]
+  apply hprog e.tid op' hop' (Or.inr _)
+  rw [hfg, hop]; exact hid
 
 /-! ### The defect repaired by 41c35d0, on the model of the code as it was
 
@@ -176,15 +298,19 @@ id in between. -/
 
 /-- two threads, each one `Add(id 0, v)` -/
 def addOp (v : Int) : Op Int :=
-  .upd ⟨0, false, true, true, none, fun _ => none, fun _ => v⟩
+  .upd { id := 0, isValue := false, expectAbsent := true, createIfAbsent := true, expect := none,
+         check := fun _ => none, f := fun _ => v }
+
+/-- a fixed environment for the concrete runs: a frozen clock, a generator that always proposes id 7 -/
+def env₀ : Env := ⟨fun _ => 0, fun _ _ => 7⟩
 
 def twoAdds : Nat → List (Op Int) := fun t => if t = 0 then [addOp 1] else if t = 1 then [addOp 2] else []
 
 /-- the witness schedule: both read (absent), both run the change function, both commit -/
 def twoAddsSched : List Nat := [0, 1, 0, 1, 0, 1]
 
-def unfixedRun : Config Int := run false (initCfg (fun _ => none) twoAdds) twoAddsSched
-def fixedRun : Config Int := run true (initCfg (fun _ => none) twoAdds) twoAddsSched
+def unfixedRun : Config Int := run false env₀ (initCfg (fun _ => none) twoAdds) twoAddsSched
+def fixedRun : Config Int := run true env₀ (initCfg (fun _ => none) twoAdds) twoAddsSched
 
 /-- **Unfixed code: two overlapping Adds of one id both succeed** and the second overwrites the first. -/
 theorem C02_unfixed_two_adds_both_succeed :
@@ -203,7 +329,7 @@ example :
 /-! ### Non-vacuity: runs that reach every kind of outcome -/
 
 def incRun : Config Int :=
-  run true (initCfg (fun i => if i = 0 then some 100 else none) (fun t => if t < 2 then [incOp 0 5] else []))
+  run true env₀ (initCfg (fun i => if i = 0 then some 100 else none) (fun t => if t < 2 then [incOp 0 5] else []))
     [0, 1, 0, 1, 0, 1]
 
 /-- increments by two threads with an interleaved read: one aborts, the other's increment is kept -/
@@ -214,8 +340,63 @@ example :
     absS incRun.store 0 = some 105 ∧ incRun.log.length = 1 := by
   decide
 
+/-- the same race under a frozen clock: the stamp does not move (0 = 0), the loser is still detected -/
+example : incRun.stamp 0 = 0 ∧ incRun.tick = 7 := by decide
+
+def incAt42 : Op Int :=
+  .upd { id := 0, isValue := false, expectAbsent := false, createIfAbsent := false, expect := none,
+         check := fun _ => none, f := fun old => old.getD 0 + 1, writeTime := some 42 }
+
+/-- `WithWriteTime 42`: that is the stored change time -/
+example :
+    (run true env₀ (initCfg (fun i => if i = 0 then some (100 : Int) else none)
+      (fun t => if t = 0 then [incAt42] else [])) [0, 0, 0]).stamp 0 = 42 := by decide
+
+/-- `Add("")` with `WithGenIDIfAbsent` -/
+def genAdd (v : Int) : Op Int :=
+  .upd { id := 0, isValue := false, expectAbsent := true, createIfAbsent := true, expect := none,
+         check := fun _ => none, f := fun _ => v, genId := true }
+
+/-- two generate-id Adds whose generator proposes the same id (7) to both before either commits -/
+def genRun : Config Int :=
+  run true env₀ (initCfg (fun _ => none) (fun t => if t = 0 then [genAdd 1] else if t = 1 then [genAdd 2] else []))
+    [0, 1, 0, 1, 0, 1]
+
+/-- only one of them gets the id; the other one loses with Aborted and has no effect -/
+example :
+    (genRun.threads 0).done.map (·.res) = [.ok (some 1)] ∧ (genRun.threads 1).done.map (·.res) = [.error .aborted] ∧
+    (genRun.threads 0).done.map (fun r => opId r.op) = [7] ∧ absS genRun.store 7 = some 1 ∧ genRun.rng = 2 := by
+  decide
+
+/-- one after the other: the second call's ten candidates are all taken, generation gives up with Aborted -/
+example :
+    ((run true env₀ (initCfg (fun _ => none) (fun t => if t = 0 then [genAdd 1, genAdd 2] else []))
+      [0, 0, 0, 0]).threads 0).done.map (fun r => (r.res, r.kind)) = [(.ok (some 1), .committed), (.error .aborted, .raced)] := by
+  decide
+
+/-- a generator that moves on: candidate = number of the read; the second call skips nothing and gets id 1 -/
+example :
+    ((run true ⟨fun _ => 0, fun n _ => n⟩ (initCfg (fun i => if i = 0 then some (5 : Int) else none)
+      (fun t => if t = 0 then [genAdd 1] else []))
+      [0, 0, 0]).threads 0).done.map (fun r => (opId r.op, r.res)) = [(1, .ok (some 1))] := by
+  decide
+
+def inc1 : Op Int := incOp 0 1
+
+/-- a Delete whose item is replaced before each of its five attempts gives up with Unavailable;
+five commits of the rival lie inside its interval -/
+def giveUpRun : Config Int :=
+  run true env₀ (initCfg (fun i => if i = 0 then some 0 else none)
+    (fun t => if t = 0 then [.del ⟨0, false, none, fun _ => none⟩] else if t = 1 then [inc1, inc1, inc1, inc1, inc1] else []))
+    [0, 1, 1, 1, 0, 1, 1, 1, 0, 1, 1, 1, 0, 1, 1, 1, 0, 1, 1, 1, 0]
+
+example :
+    (giveUpRun.threads 0).done.map (fun r => (r.res, r.kind, r.inv, r.resp)) = [(.error .unavailable, .raced, 0, 5)] ∧
+    absS giveUpRun.store 0 = some 5 := by
+  decide
+
 def delRun : Config Int :=
-  run true (initCfg (fun i => if i = 0 then some 7 else none)
+  run true env₀ (initCfg (fun i => if i = 0 then some 7 else none)
     (fun t =>
       if t = 0 then [.del ⟨0, false, none, fun _ => none⟩, .del ⟨0, false, none, fun _ => none⟩]
       else if t = 1 then [incOp 0 1] else []))
